@@ -3,6 +3,7 @@ CONSTANTS
   MaxDocs = 4
   LongMax = 7
   Export = TRUE
+  BulkSizes = {12, 33, 70, 130}
 INVARIANT Inv_AcceptStaged
 INVARIANT Inv_ReadersExcludeCreate
 INVARIANT Inv_PermIndependent
